@@ -128,6 +128,7 @@ REWRITES_DOC = {
     'R2': '`*X.get_unchecked(i)` -> `X[i]`: same value when i is in bounds; the bounds obligation IS the safety obligation',
     'R3': 'parameter pattern `_: T` -> `_pN: T` (Verus rejects `_` patterns)',
     'R7': 'generic parameter instantiated at the one type the unit models: `T: Index<usize, Output = u64>` of bits::read_int/write_int at Vec<u64>; `P: AsRef<Path>` at the model path type',
+    'R10': 'alpha-renaming of the method-level generic parameter of the Serialize methods (T -> W, the name SelectSupport already uses): this Verus matches trait and impl method generics by name',
     'R5': '`for p in E { B }` -> `let mut __it = E; loop { match __it.next() { Some(p) => { B } None => break } }` (reference desugaring)',
     'R8': 'struct fields widened to pub inside the unit',
     'R1': 'doc comments / #[inline] / derives dropped',
@@ -287,6 +288,18 @@ def weave_fn(src, container, name, nth, opts, subs, mode, sig_only=False):
             b = Body(text)
             bo = b.body_open() if not sig_only else -1
             sig_end = bo if bo >= 0 else len(text)
+    # R10: alpha-rename a method-level generic parameter (//@rename_generic T WR), signature only
+    for kind, arg, lines in subs:
+        if kind == 'rename_generic':
+            a, b_ = arg.split()
+            sig0 = text[:sig_end]
+            sig1 = re.sub(r'(?<![A-Za-z0-9_])' + re.escape(a) + r'(?![A-Za-z0-9_])', b_, sig0)
+            if sig1 != sig0:
+                text = sig1 + text[sig_end:]
+                rewrites['R10'] = 1
+                b = Body(text)
+                bo = b.body_open() if not sig_only else -1
+                sig_end = bo if bo >= 0 else len(text)
     r7_text = text
 
     stub = (mode == 'stub') or opts.get('status') == 'A'
@@ -297,7 +310,7 @@ def weave_fn(src, container, name, nth, opts, subs, mode, sig_only=False):
     # collect sub-directives
     for kind, arg, lines in subs:
         body_text = '\n'.join(lines)
-        if kind == 'inst':
+        if kind in ('inst', 'rename_generic'):
             continue
         if kind == 'attr':
             if not sig_only:
